@@ -40,7 +40,7 @@ func lexCampaign(c *Ctx, prop string) error {
 		g := gram.GenLexGrammar(c.Rng, lexOpts())
 		jobs = append(jobs, &GenJob{Name: fmt.Sprintf("g%04d", i), G: g})
 	}
-	jobs = append(jobs, corpusLexJobs(len(jobs))...)
+	jobs = append(jobs, corpusLexJobs(c, len(jobs))...)
 	inputsRng := rand.New(rand.NewSource(c.Seed*7919 + 17))
 	return runLexJobs(c, prop, jobs, func(j *GenJob) [][]byte { return gram.GenLexInputs(inputsRng, j.G, nInputs) })
 }
